@@ -60,6 +60,11 @@ def sig_value(v, depth=0):  # noqa: C901, PLR0911, PLR0912
             return ["stream", tname(t), v.getvalue().hex(), v.tell()]
         except ValueError:
             return ["stream", tname(t), "closed"]
+    if isinstance(v, io.StringIO):
+        try:
+            return ["tstream", tname(t), v.getvalue(), v.tell()]
+        except ValueError:
+            return ["tstream", tname(t), "closed"]
     if isinstance(v, type):
         return ["class", tname(v)]
     if isinstance(v, BaseException):
